@@ -31,6 +31,7 @@ ap.add_argument("--needs", default="")
 ap.add_argument("--tier", default="quick")
 ap.add_argument("--skip-demo", action="store_true")
 ap.add_argument("--round", type=int, default=1)
+ap.add_argument("--alt", action="store_true")   # run the checks against the scratch worktree (tools/altcheck.sh) instead of /repo
 a = ap.parse_args()
 
 if a.round == 1:
@@ -105,23 +106,31 @@ if not a.skip_demo:
     meta["ran"].append(meta.get("demo_cmd", "") + "   (with and without patch)")
     clean_wt()
 
-# 4. our checks against /repo with the patch
-assert sh("git status --porcelain", "/repo").stdout.strip() == "", "/repo not clean"
-r = sh("git apply " + patch, "/repo")
-assert r.returncode == 0, "patch does not apply to /repo: " + r.stderr
+# 4. our checks against /repo with the patch (or, with --alt, against the scratch worktree)
+target = wt if a.alt else "/repo"
+assert sh("git status --porcelain", target).stdout.strip() == "", target + " not clean"
+r = sh("git apply " + patch, target)
+assert r.returncode == 0, "patch does not apply to %s: %s" % (target, r.stderr)
 try:
     for c in a.checks.split(","):
         t0 = time.time()
-        res = sh("./check %s --tier %s" % (c, a.tier), V, timeout=7200)
+        if a.alt:
+            res = sh("tools/altcheck.sh %s %s --tier %s" % (wt, c, a.tier), V, timeout=7200)
+        else:
+            res = sh("./check %s --tier %s" % (c, a.tier), V, timeout=7200)
         sigs = [l.strip() for l in res.stdout.splitlines() if l.strip().startswith("signature:")]
         whats = [l.strip() for l in res.stdout.splitlines() if l.strip().startswith("what:")]
         meta["checks"][c] = {"tier": a.tier, "exit": res.returncode, "violations": sum(1 for l in res.stdout.splitlines() if l.startswith("VIOLATION")),
                              "signatures": sigs[:5], "first_what": whats[:1], "wall_s": round(time.time() - t0, 1)}
-        meta["ran"].append("./check %s --tier %s   (patch applied to /repo, then git checkout -- .)" % (c, a.tier))
+        if a.alt:
+            meta["checks"][c]["ran_against"] = "scratch worktree with the patch applied (tools/altcheck.sh), /repo was in use by a sweep"
+            meta["ran"].append("tools/altcheck.sh <worktree> %s --tier %s   (patch applied to the scratch worktree)" % (c, a.tier))
+        else:
+            meta["ran"].append("./check %s --tier %s   (patch applied to /repo, then git checkout -- .)" % (c, a.tier))
         print(a.id, a.var, c, "exit", res.returncode, sigs[:2])
 finally:
-    sh("git checkout -- .", "/repo")
-assert sh("git status --porcelain", "/repo").stdout.strip() == ""
+    sh("git checkout -- .", target)
+assert sh("git status --porcelain", target).stdout.strip() == ""
 meta["caught_by"] = [c for c, v in meta["checks"].items() if v["exit"] == 1]
 if a.needs:
     meta["needs_to_manifest"] = a.needs
